@@ -27,7 +27,7 @@ ASSUMPTIONS = [
 BOUNDS = {"quick": "capacity 1 and 2 with 2 updates: consistency after every update, + one datetime query, + one index query (all exhaustive; timestamps anywhere in a 3-5 s span at us resolution)",
           "thorough": "capacity 3 with 3 updates: consistency (exhaustive), + queries (budgeted); capacity 3 with 4 updates (budgeted); capacity 1 with 3 updates"}
 OUTSIDE = "numpy container (shares every line except _wrapped_buffer_window/_fill_gaps branches); serialization; MovingWindow's resampler wiring; other sampling periods"
-BUDGET = {"quick": 900, "thorough": 3600}
+BUDGET = {"quick": 900, "thorough": 2400}
 PERIOD = timedelta(seconds=1)
 PUS = 1_000_000
 FILL = -7.0
